@@ -23,9 +23,16 @@ PROP = dict(
             dict(module="LogRoller", cfg=dict(thorough="LogRoller_thorough.cfg"), emit=True, workers=8, timeout=300),
             dict(module="LogSinkHist", cfg="LogSinkHist.cfg", emit=True, workers=1,
                  simulate=dict(quick=dict(num=8, depth=120), thorough=dict(num=60, depth=120)), timeout=300),
+        ] + [
+            # extension: what every placeholder of getSubstitution evaluates to, as a function of the exchange
+            # (specs/ReplacerVocab.tla, notes/ReplacerVocab.md); the liveness cfg first: the emitting job of a module runs last
+            dict(module="ReplacerVocab", cfg=dict(thorough="ReplacerVocabLive.cfg"), workers=4, coverage=True, timeout=300),
+            dict(module="ReplacerVocab", cfg=dict(quick="ReplacerVocab_quick.cfg", thorough="ReplacerVocab_thorough.cfg"), emit=True,
+                 workers=8, timeout=dict(quick=300, thorough=900)),
         ],
         go=[dict(pkg="c20", test="TestC20", timeout=dict(quick=600, thorough=3000)),
-            dict(pkg="cx20logsink", test="TestCx20LogSink", timeout=dict(quick=300, thorough=900))],
+            dict(pkg="cx20logsink", test="TestCx20LogSink", timeout=dict(quick=300, thorough=900)),
+            dict(pkg="cx20vocab", test="TestCx20Vocab", timeout=dict(quick=300, thorough=900))],
         traces=[dict(name="logsink", module="LogSinkTrace", cfg="LogSinkTrace.cfg", timeout=600)],
         exhaustive=dict(quick=False, thorough=True),
         technique="TLA+ specs Middleware.tla (recorder/log lines in the handler contract), LogScope.tla (scopes, except, several logs) and Replacer.tla (placeholder scanner) model-checked by TLC; terminal states replayed against real casket sites writing real log files",
